@@ -1453,6 +1453,13 @@ val tf_rep : nat -> board -> threefold
 val api_search_tf :
   n -> nat -> nat -> nat -> board -> ((move option * score) * n) * bool
 
+val tf_add_n : nat -> threefold -> board -> threefold
+
+val tf_children : nat -> board -> threefold
+
+val api_search_tfc :
+  n -> nat -> nat -> nat -> board -> ((move option * score) * n) * bool
+
 val api_nat_of_N : n -> nat
 
 val api_score_neg2 : score -> score
